@@ -26,7 +26,10 @@ Wide == {Set([i \in 1..8 |-> Leaf(IF i % 2 = 1 THEN "A" ELSE "B")]),
          Set(<<Leaf("A"), Set(<<Leaf("B"), Leaf("B")>>), Leaf("A"), Set(<<Leaf("A"), Set(<<Leaf("B"), Leaf("A")>>)>>), Leaf("B")>>),
          Set(<<Set(<<Set(<<Set(<<Leaf("A")>>)>>)>>)>>),
          Set(<<Leaf("B"), Leaf("B"), Leaf("A"), Leaf("B"), Leaf("B")>>)}
-ShapeSet == {Set(fs) : fs \in UNION {[1..k -> Field] : k \in 1..2}} \cup Wide
+\* large sets (the number of members must not matter: 16, 17, 19, 32, 33 members, a large set nested in a small one)
+Alt(n) == Set([i \in 1..n |-> Leaf(IF i % 2 = 1 THEN "A" ELSE "B")])
+Large == {Alt(16), Alt(17), Alt(19), Alt(32), Alt(33), Set(<<Leaf("B"), Alt(21), Leaf("A")>>)}
+ShapeSet == {Set(fs) : fs \in UNION {[1..k -> Field] : k \in 1..2}} \cup Wide \cup Large
 
 RECURSIVE NLeaves(_)
 NLeaves(s) == IF s.t # "S" THEN 1
@@ -62,7 +65,7 @@ VARIABLES sh, var, done
 GInit == sh \in ShapeSet /\ var \in Variants(sh) /\ done = FALSE
 GNext == UNCHANGED <<sh, var, done>>
 EmitShape == PrintT(<<"SHAPE", ToJson([shape |-> sh, leaves |-> Flat(sh), n |-> NLeaves(sh), naming |-> var.naming, attrs |-> var.attrs, style |-> var.style])>>)
-SizeOK == NLeaves(sh) >= 1 /\ NLeaves(sh) <= 8
+SizeOK == NLeaves(sh) >= 1 /\ NLeaves(sh) <= 33
 
 \* ---- validation of the recorded traces ---------------------------------------------
 Rec == ndJsonDeserialize(IOEnv.TRACE)
